@@ -148,6 +148,9 @@ pub fn after_op(r: &mut Runner) {
     if r.oracles.c04 {
         crate::c04::instant(r);
     }
+    if r.oracles.c14 {
+        crate::c14::instant(r);
+    }
 }
 
 pub fn at_caught_up(r: &mut Runner, repo_inst: usize, rpres: &RpResult) {
